@@ -47,6 +47,22 @@ func runCoSi(t *core.Tape, tier string, info *core.RunInfo) *core.Violation {
 			if err := m.SetMask(b); err != nil {
 				return viol("mask", "cosi/setmask-error", "SetMask: %v", err)
 			}
+			if t.Bool("cfg.rxreuse", 400) {
+				// the caller's buffer is a receive buffer that the next packet overwrites. Whatever the
+				// mask object does with the slice it was given, it must stay consistent in itself: the
+				// aggregate key is the sum of the keys that its own bits enable (seed C09k: SetMask kept
+				// the caller's slice next to an aggregate computed from the old contents)
+				copy(b, t.Bytes("cfg.rxreuse", len(b)))
+				info.Faults["buffer-reused-after-setmask"]++
+				now := m.Mask()
+				for i := 0; i < n; i++ {
+					on := now[i/8]&(1<<(i%8)) != 0
+					if on != bits[i] {
+						info.Probe("cosi-setmask-aliases-caller-buffer")
+					}
+					bits[i] = on
+				}
+			}
 		}
 		sum := g.Point().Null()
 		cnt := 0
@@ -57,7 +73,7 @@ func runCoSi(t *core.Tape, tier string, info *core.RunInfo) *core.Violation {
 			}
 		}
 		if !m.AggregatePublic.Equal(sum) {
-			return viol("mask", "cosi/aggregate-public-drift", "after %d mask operations AggregatePublic is not the sum of the enabled keys %v", k+1, bits)
+			return viol("mask", "cosi/aggregate-public-drift", "after %d mask operations AggregatePublic is not the sum of the keys that the mask bits %x enable (model %v)", k+1, m.Mask(), bits)
 		}
 		if m.CountEnabled() != cnt {
 			return viol("mask", "cosi/count-enabled", "CountEnabled=%d, want %d", m.CountEnabled(), cnt)
